@@ -675,6 +675,18 @@ struct World
                     SIM_CHECK(bitwise_equal(kept_traj->evaluate(t, 1), twin->getTrajectory().evaluate(t, 1)), "trajectory_copy_changed",
                               "evaluation of an earlier trajectory copy changed");
                     ctx.count("probe.kept_trajectory_rechecked");
+                    if (o.I(1) & 4)
+                    {
+                        // the copy is an object of its own: updating IT must not touch the spline it was taken from
+                        auto b2 = kept_traj->getBreakpoints();
+                        typename Spline::MatrixType c2 = kept_traj->getCoefficients();
+                        c2.array() += 1.0;
+                        kept_traj->update(b2, c2, Spline::COEFF_NUM);
+                        (void)kept_traj->evaluate(b2.front(), 1);
+                        kept_traj.reset();
+                        check_twin(h[k], "after updating a trajectory copy taken from this spline", false);
+                        ctx.count("probe.kept_trajectory_updated_separately");
+                    }
                 }
                 else
                 {
@@ -782,7 +794,7 @@ inline Plan gen_plan(uint64_t seed, uint64_t index, Tier tier, int profile)
         case OP_COPY: case OP_ASSIGN: o.i = {(int64_t)r.below(kHandles), (int64_t)r.below(kHandles)}; break;
         case OP_DESTROY: o.i = {(int64_t)r.below(kHandles)}; break;
         case OP_SELF_ASSIGN: o.i = {(int64_t)r.below(kHandles), (int64_t)r.below(16)}; break;
-        case OP_TRAJ_COPY: o.i = {(int64_t)r.below(kHandles), (int64_t)r.below(4)}; break;
+        case OP_TRAJ_COPY: o.i = {(int64_t)r.below(kHandles), (int64_t)r.below(8)}; break;
         case OP_ADJOINT: o.i = {(int64_t)r.below(kHandles), (int64_t)r.below(1u << 30), (int64_t)r.below(6)}; break;
         case OP_LINEARITY: o.i = {(int64_t)r.below(kHandles), (int64_t)r.below(1u << 30), (int64_t)r.below(6), (int64_t)r.below(7), (int64_t)r.below(5)}; break;
         }
